@@ -246,6 +246,8 @@ def method_call(ex, f, recv, node, kw, st, sink):
             out += ex.call_contract(override, pos, kws, s, sink, node)
         return out
     out = []
+    if kw and name != "sort":
+        raise Unsupported("keyword arguments to %s.%s" % (t, name))
     for s, args in ex.ev_list(node.args, st, sink):
         h = None
         if t == ty.Str:
@@ -309,12 +311,40 @@ def _char_search(ex, s, recv, needle, start, sink, node, raising):
     return out
 
 
+def _needle_search(ex, s, recv, needle, start, sink, node, raising):
+    """str.index/find for a non-empty needle: least position >= start where the needle occurs, as a fresh integer with its defining facts."""
+    r = z3.Int("found!%d" % ex._fresh())
+    p = z3.Int("p!find%d" % ex._fresh())
+    n, L = z3.Length(recv.e), z3.Length(needle.e)
+    occ = lambda i: z3.And(i + L <= n, z3.SubSeq(recv.e, i, L) == needle.e)
+    found = z3.And(start <= r, occ(r), z3.ForAll([p], z3.Implies(z3.And(start <= p, p < r), z3.Not(occ(p)))))
+    absent = z3.ForAll([p], z3.Implies(start <= p, z3.Not(occ(p))))
+    out = []
+    s1 = s.copy()
+    s1.assume(found)
+    if ex.feasible(s1):
+        s1.trace.append("%s:found" % _origin(node))
+        out.append((s1, SV(ty.Int, r)))
+    s2 = s.copy()
+    s2.assume(absent)
+    if ex.feasible(s2):
+        s2.trace.append("%s:absent" % _origin(node))
+        if raising:
+            ex.raise_(s2, "ValueError", sink, _origin(node))
+        else:
+            out.append((s2, SV(ty.Int, z3.IntVal(-1))))
+    return out
+
+
 def s_index(ex, rn, recv, args, s, sink, node):
     start = _start(ex, s, recv, args, 1)
     if len(args) > 2:
         raise Unsupported("str.index with end")
     if _single_char(args[0].e):
         return _char_search(ex, s, recv, args[0], start, sink, node, True)
+    simp = ex.simp_for(s)
+    if simp is not None and simp(z3.Length(args[0].e) >= 1):
+        return _needle_search(ex, s, recv, args[0], start, sink, node, True)
     r = z3.IndexOf(recv.e, args[0].e, start)
     return ex.cases(s, [(r >= 0, "val", SV(ty.Int, r)), (r < 0, "exc", "ValueError")], sink, _origin(node))
 
@@ -457,7 +487,39 @@ def l_remove(ex, rn, recv, args, s, sink, node):
     return out
 
 
-SEQ_METHODS = {"append": l_append, "extend": l_extend, "pop": l_pop, "insert": l_insert, "index": l_index,
+def l_sort(ex, rn, recv, args, s, sink, node):
+    """list.sort(key=...): the new list is sorted_<key>(old) -- an uninterpreted function of the old list (so equal lists sort equally),
+    of equal length, ascending in the key.  Supported keys: none (ints) and `lambda x: x[:2]` on tuples starting with two ints.
+    Permutation of the old elements is NOT asserted (listed as a gap of the encoding)."""
+    kws = {k.arg: k.value for k in node.keywords}
+    if recv.e is None:
+        return [(s, ty.none_val())]
+    elem = recv.t.elem
+    keytxt = ast.unparse(kws["key"]) if "key" in kws else ""
+    if keytxt == "lambda x: x[:2]" and isinstance(elem, ty.Tuple) and elem.elems[:2] == [ty.Int, ty.Int]:
+        fname = "sorted_key2"
+    elif keytxt == "" and elem == ty.Int:
+        fname = "sorted_int"
+    else:
+        raise Unsupported("list.sort with key %r on %s" % (keytxt, recv.t))
+    so = ty.sort_of(recv.t)
+    f = z3.Function(fname, so, so)
+    new = SV(recv.t, f(recv.e))
+    a, b = z3.Int("a!sort%d" % ex._fresh()), z3.Int("b!sort%d" % ex._fresh())
+    if fname == "sorted_int":
+        le = new.e[a] <= new.e[b]
+    else:
+        x, y = SV(elem, new.e[a]), SV(elem, new.e[b])
+        px, py = ops.tuple_parts(x), ops.tuple_parts(y)
+        le = z3.Or(px[0].e < py[0].e, z3.And(px[0].e == py[0].e, px[1].e <= py[1].e))
+    s.assume(z3.Length(new.e) == z3.Length(recv.e))
+    s.assume(z3.ForAll([a, b], z3.Implies(z3.And(0 <= a, a < b, b < z3.Length(new.e)), le)))
+    ex.assumptions.add("list.sort: result = uninterpreted sorted_<key>(old list), same length, ascending in the key; 'is a permutation of the old list' is not encoded")
+    ex.store_loc(s, rn, new)
+    return [(s, ty.none_val())]
+
+
+SEQ_METHODS = {"sort": l_sort, "append": l_append, "extend": l_extend, "pop": l_pop, "insert": l_insert, "index": l_index,
                "remove": l_remove}
 
 
